@@ -44,7 +44,11 @@ func Before(a, b ssa.Instruction) bool {
 	if a.Block() == b.Block() {
 		return instrIndex(a) < instrIndex(b)
 	}
-	return a.Block().Dominates(b.Block())
+	if a.Block().Dominates(b.Block()) {
+		return true
+	}
+	// not a syntactic dominator, but possibly on every feasible path (continuation of an inlined helper)
+	return a.Parent() == b.Parent() && a.Parent() != nil && MustPassFromEntry(a.Parent(), b, []ssa.Instruction{a})
 }
 
 // phiIf: b ends in `if p` where p is a phi defined in b (short-circuit value form).
@@ -222,6 +226,54 @@ func phiIfOperand(b *ssa.BasicBlock, k int) (ssa.Value, bool) {
 	return c.(*ssa.Phi).Edges[k], flip
 }
 
+// knownFromPredBranch: block b is entered through its k-th predecessor, whose terminator branches on the very
+// value op (modulo negations): the truth of op on that edge.
+func knownFromPredBranch(b *ssa.BasicBlock, k int, op ssa.Value) (bool, bool) {
+	if k < 0 || k >= len(b.Preds) {
+		return false, false
+	}
+	q := b.Preds[k]
+	if len(q.Instrs) == 0 || len(q.Succs) != 2 || q.Succs[0] == q.Succs[1] {
+		return false, false
+	}
+	iff, ok := q.Instrs[len(q.Instrs)-1].(*ssa.If)
+	if !ok {
+		return false, false
+	}
+	strip := func(v ssa.Value) (ssa.Value, bool) {
+		neg := false
+		for {
+			u, ok := v.(*ssa.UnOp)
+			if !ok || u.Op != token.NOT {
+				return v, neg
+			}
+			v = u.X
+			neg = !neg
+		}
+	}
+	c, negC := strip(iff.Cond)
+	o, negO := strip(op)
+	if c != o {
+		return false, false
+	}
+	// which successor of q is b for this predecessor slot
+	si := -1
+	for i, s := range q.Succs {
+		if s == b && predIndex(q, b, i) == k {
+			si = i
+		}
+	}
+	if si < 0 {
+		return false, false
+	}
+	condTrue := si == 0
+	val := condTrue != negC // truth of c
+	if negO {
+		val = !val
+	}
+	return val, true
+}
+
 // wnode is a node of the walked graph: a block, plus the arrival edge when the block is a phi-if block.
 type wnode struct {
 	b    *ssa.BasicBlock
@@ -256,6 +308,13 @@ func (n wnode) succs(cut EdgeSet) []wnode {
 	if p := phiIf(b); p != nil && n.pred >= 0 && n.pred < len(p.Edges) {
 		op, flip := phiIfOperand(b, n.pred)
 		if v, ok := ConstBool(op); ok {
+			if flip {
+				v = !v
+			}
+			allowed[0], allowed[1] = v, !v
+		} else if v, ok := knownFromPredBranch(b, n.pred, op); ok {
+			// `stale := a; if !stale { stale = b }; if stale {…}`: on the edge that skipped the assignment the merged
+			// value is the very condition that was just branched on
 			if flip {
 				v = !v
 			}
@@ -693,4 +752,20 @@ func CorrelatedCut(fn *ssa.Function, at ssa.Instruction) EdgeSet {
 		}
 	}
 	return cut
+}
+
+// Precedes: a is executed before b on every feasible path from the function entry to b. (Plain block dominance
+// is too strict once a helper has been inlined: the continuation of an inlined call has one syntactic predecessor
+// per return of the helper, and only the walker knows which of them can actually be taken.)
+func Precedes(a, b ssa.Instruction) bool {
+	if a == nil || b == nil || a.Parent() != b.Parent() {
+		return false
+	}
+	if a.Block() == b.Block() {
+		return instrIndex(a) <= instrIndex(b)
+	}
+	if a.Block().Dominates(b.Block()) {
+		return true
+	}
+	return MustPassFromEntry(a.Parent(), b, []ssa.Instruction{a})
 }
